@@ -302,39 +302,57 @@ Inductive wnode :=
   | WCData (idx : N) (s : str)
   | WEntRef (idx : N) (name : str) (kids : list wnode)
   | WComment (idx : N) (s : str)
-  | WPi (idx : N) (target data : str)
-  | WDoctype (idx : N) (name : str) (entities : N).
+  | WPi (idx : N) (target data : str).
 
-Fixpoint wrap1 (n : N) (x : xnode) : wnode * N :=
+(* one DOM node -> the wrapper nodes linked into the child chain at its place (none for the document
+   type: its wrapper is created and takes its index and those of its entities, but it is not linked) *)
+Fixpoint wrap1 (n : N) (x : xnode) : list wnode * N :=
   let go := fix go (n : N) (l : list xnode) : list wnode * N :=
               match l with
               | [] => ([], n)
               | k :: r => let (k', n') := wrap1 n k in
-                          let (r', n'') := go n' r in (k' :: r', n'')
+                          let (r', n'') := go n' r in (k' ++ r', n'')
               end in
   match x with
   | XElem q a kids =>
       if wrap_attrs_in_start
       then let (l, n1) := number_attrs (N.succ n) a in
-           let (ks, n2) := go n1 kids in (WElem n q l ks, n2)
+           let (ks, n2) := go n1 kids in ([WElem n q l ks], n2)
       else let (ks, n1) := go (N.succ n) kids in
-           let (l, n2) := number_attrs n1 a in (WElem n q l ks, n2)
-  | XText s => (WText n s, N.succ n)
-  | XCData s => (WCData n s, N.succ n)
-  | XEntRef nm kids => let (ks, n1) := go (N.succ n) kids in (WEntRef n nm ks, n1)
-  | XComment s => (WComment n s, N.succ n)
-  | XPi t d => (WPi n t d, N.succ n)
-  | XDoctype nm k => (WDoctype n nm k, N.succ n + k)%N
+           let (l, n2) := number_attrs n1 a in ([WElem n q l ks], n2)
+  | XText s => ([WText n s], N.succ n)
+  | XCData s => ([WCData n s], N.succ n)
+  | XEntRef nm kids => let (ks, n1) := go (N.succ n) kids in ([WEntRef n nm ks], n1)
+  | XComment s => ([WComment n s], N.succ n)
+  | XPi t d => ([WPi n t d], N.succ n)
+  | XDoctype nm k => ([], N.succ n + k)%N
   end.
 
 Fixpoint wrap_list (n : N) (l : list xnode) : list wnode * N :=
   match l with
   | [] => ([], n)
   | k :: r => let (k', n') := wrap1 n k in
-              let (r', n'') := wrap_list n' r in (k' :: r', n'')
+              let (r', n'') := wrap_list n' r in (k' ++ r', n'')
   end.
 
 Definition wrap (xs : list xnode) : list wnode := fst (wrap_list wrap_first_index xs).
+
+(* the DOM without its document type node(s) *)
+Fixpoint drop_doctype1 (x : xnode) : list xnode :=
+  match x with
+  | XDoctype _ _ => []
+  | XElem q a kids => [XElem q a (flat_map drop_doctype1 kids)]
+  | XEntRef nm kids => [XEntRef nm (flat_map drop_doctype1 kids)]
+  | _ => [x]
+  end.
+Definition drop_doctype (xs : list xnode) : list xnode := flat_map drop_doctype1 xs.
+
+Fixpoint xnodoctype (x : xnode) : bool :=
+  match x with
+  | XDoctype _ _ => false
+  | XElem _ _ kids | XEntRef _ kids => forallb xnodoctype kids
+  | _ => true
+  end.
 
 (* XPath view of a DOM in XPath-normal form *)
 Fixpoint x2t (x : xnode) : tree :=
@@ -395,27 +413,23 @@ Fixpoint wstrip (w : wnode) : tree :=
   | WEntRef _ nm _ => TPi nm []
   | WComment _ s => TComment s
   | WPi _ t d => TPi t d
-  | WDoctype _ nm _ => TComment nm
   end.
 
-(* indexes in document order; a document type node is followed by the indexes of its entities *)
+(* indexes of the linked nodes in document order *)
 Fixpoint wflat1 (w : wnode) : list N :=
   match w with
   | WElem i _ a kids => if wrap_attrs_in_start then i :: map fst a ++ flat_map wflat1 kids
                         else i :: flat_map wflat1 kids ++ map fst a
   | WEntRef i _ kids => i :: flat_map wflat1 kids
   | WText i _ | WCData i _ | WComment i _ | WPi i _ _ => [i]
-  | WDoctype i _ k => i :: map (fun j => (N.succ i + N.of_nat j)%N) (seq 0 (N.to_nat k))
   end.
 Definition wflat (l : list wnode) : list N := flat_map wflat1 l.
 
-(* number of XPath text nodes a tree list should have vs DOM text-ish nodes *)
-Fixpoint count_nodes (w : wnode) : N :=
-  match w with
-  | WElem _ _ a kids => (1 + N.of_nat (length a) + fold_right (fun k acc => count_nodes k + acc) 0 kids)%N
-  | WEntRef _ _ kids => (1 + fold_right (fun k acc => count_nodes k + acc) 0 kids)%N
-  | WDoctype _ _ k => (1 + k)%N
-  | _ => 1%N
+(* l is strictly increasing and starts at n or later *)
+Fixpoint ascending_from (n : N) (l : list N) : Prop :=
+  match l with
+  | [] => True
+  | x :: r => (n <= x)%N /\ ascending_from (N.succ x) r
   end.
 
 (** * 3. XalanOutputStream buffering and the callback chunks *)
